@@ -5,7 +5,7 @@ from . import c05
 
 ID = 'C10'
 LEVEL = 'exploration'
-RUNS = {'quick': 1200, 'thorough': 30000}
+RUNS = {'quick': 1200, 'thorough': 90000}
 WALL = {'quick': 120, 'thorough': 1500}
 RULE = ("a forest of seeded And/Or/When trees (depth <= 3) over all built-in primitives, with windows 0/1/None/=history/>history and "
         "tolerances from a wide grid plus boundary probes built from the differences the run actually produced (exactly equal, one ulp "
